@@ -22,7 +22,9 @@ MAKERS = ("copy", "mixins", "variant")
 def strategy(st):
     @st.composite
     def _linked(draw):
-        owners = [draw(st.sampled_from(["base", "child", "child"])) for _ in range(NCLS)]
+        depth = draw(st.sampled_from([1, 1, 2]))
+        pool = ["base", "child", "child"] + (["mid"] if depth == 2 else [])
+        owners = [draw(st.sampled_from(pool)) for _ in range(NCLS)]
         if "child" not in owners:
             owners[draw(st.integers(0, NCLS - 1))] = "child"
         forms = [draw(st.sampled_from(FORMS if o == "child" else ("call_next",))) for o in owners]
@@ -43,7 +45,7 @@ def strategy(st):
             else:
                 ops.append(["compile-child"])
         ops.append(["call", NCLS - 1])
-        return {"family": "linked", "owners": owners, "forms": forms, "present": present, "maker": maker, "ops": ops}
+        return {"family": "linked", "depth": depth, "owners": owners, "forms": forms, "present": present, "maker": maker, "ops": ops}
 
     return _linked()
 
@@ -89,27 +91,38 @@ def run_case(spec):
             if spec["present"][i] and owners[i] == "base":
                 base.register(glb[f"m{i}"])
                 present[i] = True
+        parent = base
+        mid = None
+        if spec.get("depth", 1) == 2:
+            # an intermediate follower: child follows mid, mid follows base
+            parent = mid = base.copy(linkback=True)
+            for i in range(NCLS):
+                if spec["present"][i] and owners[i] == "mid":
+                    mid.register(glb[f"m{i}"])
+                    present[i] = True
+            res.label("linked-through-an-intermediate-follower")
         if spec["maker"] == "copy":
-            child = base.copy(linkback=True)
+            child = parent.copy(linkback=True)
         elif spec["maker"] == "mixins":
-            child = ovld.Ovld(mixins=[base], linkback=True, name="child")
+            child = ovld.Ovld(mixins=[parent], linkback=True, name="child")
         else:
-            child = base.variant(glb["mu"], linkback=True)
+            child = parent.variant(glb["mu"], linkback=True)
             child.unregister(glb["mu"])
         glb["child"] = child
         for i in range(NCLS):
             if spec["present"][i] and owners[i] == "child":
                 child.register(glb[f"m{i}"])
                 present[i] = True
+        by_owner = {"base": base, "mid": mid, "child": child}
         u_present = False
         changed_base_after_use = used = False
         for step, op in enumerate(spec["ops"]):
             if op[0] == "toggle":
                 i = op[1]
-                ov = base if owners[i] == "base" else child
+                ov = by_owner[owners[i]]
                 (ov.unregister if present[i] else ov.register)(glb[f"m{i}"])
                 present[i] = not present[i]
-                if owners[i] == "base" and used:
+                if owners[i] != "child" and used:
                     changed_base_after_use = True
             elif op[0] == "toggle-u":
                 (base.unregister if u_present else base.register)(glb["mu"])
